@@ -12,6 +12,8 @@ def stages(tier):
     return [
         {"name": "event", "cmd": "conf", "args": ["-prop", "C19"], "check": "Check.Event.check_ev",
          "timeout": 300, "timeout_thorough": 1800},
+        {"name": "stress", "cmd": "conf", "args": ["-prop", "C19stress"], "check": "back-to-back changes by volume: no stranded notification (direct)",
+         "timeout": 300, "timeout_thorough": 1200},
     ]
 
 
